@@ -94,7 +94,21 @@ pub fn exec(prop: &dyn Property, src: &mut Src, ctx: &RunCtx) -> Exec {
     LAST_PANIC.with(|p| *p.borrow_mut() = None);
     let r = catch_unwind(AssertUnwindSafe(|| prop.run(src, ctx)));
     match r {
-        Ok(rep) => Exec::Report(rep),
+        Ok(mut rep) => {
+            // A task spawned by the code under test (shard actor, WAL actor…) that panicked is caught
+            // by tokio and only shows as a closed channel; the hook still recorded it.
+            if let Some(what) = LAST_PANIC.with(|p| p.borrow_mut().take()) {
+                if let Some(at) = what.rsplit(" @ ").next() {
+                    if at.starts_with("/repo/src/") || at.starts_with("src/") {
+                        let site = at.trim_start_matches("/repo/");
+                        rep.violate(format!("{}/panic/{}", prop.id(), site), format!("a task of the system under test panicked: {}", what));
+                    } else {
+                        return Exec::HarnessPanic(what);
+                    }
+                }
+            }
+            Exec::Report(rep)
+        }
         Err(_) => {
             let what = LAST_PANIC.with(|p| p.borrow_mut().take()).unwrap_or_else(|| "panic".into());
             if let Some(at) = what.rsplit(" @ ").next() {
